@@ -11,9 +11,6 @@ MODELLED = {"euclidean", "seuclidean", "manhattan", "chebyshev", "minkowski", "w
 FIXED_DIM = {"haversine": 2, "spherical_gaussian_energy": 3, "diagonal_gaussian_energy": 4, "gaussian_energy": 5}
 
 
-def regen(ctx):
-    regen_mod.regen(ctx)
-
 
 def point(rng, cname):
     """a differentiable point, kept away from the kinks of the metric; None if rejected"""
